@@ -217,3 +217,84 @@ Proof. vm_compute. reflexivity. Qed.
 Example C05_ex_reachable : forall cfg sel op iin a0 evs s h,
   run_from_start cfg sel op iin a0 evs = (s, h) -> Reach cfg h s.
 Proof. exact run_from_start_reach. Qed.
+
+(* ================= composed: nothing but the received octets and the database are inputs =================
+   Outstation/Full.v composes the session model with the digest computed from the octets (`frag_digest`) and the
+   database model answering the session's calls (`replay`); `fstep F st (FRx from bc bytes)` is one reception,
+   `FReach` the reachable states, `fs_db` the database, `ro_out (frx_out ..)` the session's observations of the
+   reception (C04_composed_reception_spec), `snd (fstep ..)` its log (`FObs o` = the session observed o).
+   Outstation/FullCorollaries.v. *)
+From Dnp3V Require Import App.Grammar Outstation.Full.
+From Dnp3V Require Outstation.SessionC03Proofs.
+From Dnp3V Require Import Outstation.FullCorollaries.
+
+(* wf_request, in terms of the digest *)
+Theorem C05_composed_wf_request_spec : forall bytes,
+  wf_request bytes <->
+  exists hdrs rh, frag_digest bytes = DOk (nth 0 bytes 0) (nth 1 bytes 0) RvOk (ObjOk hdrs rh).
+Proof. exact wf_request_digest. Qed.
+Print Assumptions C05_composed_wf_request_spec.
+
+(* The octets of the last request accepted (s_last) arrive again, unicast from an accepted master; the request is
+   well-formed (a request whose objects did not parse is recorded too, but answered afresh) and not a READ.  In
+   every control state: nothing is executed (no callback, no RESTART clearing anywhere in the log), and the
+   session's observations are pre ++ echo ++ post with echo = the stored response octets or nothing. *)
+Theorem C05_composed_repeat_not_reexecuted : forall F st from bytes l,
+  SessionC03Proofs.FReach F st -> accepted_master (f_o F) from ->
+  s_last (fs_s st) = Some l -> lr_bytes l = bytes -> nth 1 bytes 0 <> 1 -> wf_request bytes ->
+  (forall o, In (FObs o) (snd (fstep F st (FRx from None bytes))) -> SessionLemmas_c05.quiet o = true) /\
+  exists pre post,
+    ro_out (frx_out F st from None bytes) = pre ++ SessionLemmas_c05.echo_of (fs_s st) from (lr_response l) ++ post /\
+    forallb SessionLemmas_c05.bg post = true /\
+    SessionC05Proofs.repeat_prefix (s_control (fs_s st)) (nth 1 bytes 0) (nth 0 bytes 0 mod 16) pre.
+Proof. exact frx_repeat_not_reexecuted. Qed.
+Print Assumptions C05_composed_repeat_not_reexecuted.
+
+(* PARTIAL: the database model is untouched (`fs_db` after = before, no call, no answer computed) and the
+   observations are exactly notification + stored octets, where the step consists of the repeat's answer alone:
+   in the unsolicited confirm wait with the deadline beyond the settling millisecond; idle with unsolicited
+   responses disabled and a stored response that does not ask for a confirmation.  What is missing for the general
+   statement is not a proof but truth: in the solicited confirm wait the repeat aborts the series (database
+   reset), and in every state the idle loop and the timers go on in the same step (post above: a new unsolicited
+   response, a confirm time-out) and call the database for their own reasons. *)
+Theorem C05_composed_repeat_database_untouched_partial : forall F st from bytes l,
+  SessionC03Proofs.FReach F st -> accepted_master (f_o F) from ->
+  s_last (fs_s st) = Some l -> lr_bytes l = bytes -> nth 1 bytes 0 <> 1 -> wf_request bytes ->
+  let pre := match s_control (fs_s st) with
+             | CIdle => [OInfo (IIdleRequest (nth 1 bytes 0) (nth 0 bytes 0 mod 16))]
+             | _ => []
+             end in
+  match s_control (fs_s st) with
+  | CUnsolWait _ _ _ dl => (s_now (fs_s st) + settle_ms < dl)%Z
+  | CIdle => o_unsol (f_o F) = false /\ (forall r, lr_response l = Some r -> ctl_con (r_ctl r) = false)
+  | CSolWait _ _ _ => False
+  end ->
+  fs_db (fst (fstep F st (FRx from None bytes))) = fs_db st /\
+  ro_answers (frx_out F st from None bytes) = [] /\
+  ro_out (frx_out F st from None bytes) = pre ++ SessionLemmas_c05.echo_of (fs_s st) from (lr_response l).
+Proof. exact frx_repeat_database_untouched. Qed.
+Print Assumptions C05_composed_repeat_database_untouched_partial.
+
+(* non-vacuity (vm_compute in FullCorollaries): the WRITE `C3 02 50 01 00 07 07 00` executed (IClearRestart), then
+   repeated from idle; and the same in the unsolicited confirm wait of start-up *)
+Example C05_composed_instance_idle :
+  SessionC03Proofs.FReach cx_F cx_written /\ accepted_master (f_o cx_F) 1 /\ wf_request cx_wr /\
+  (exists l, s_last (fs_s cx_written) = Some l /\ lr_bytes l = cx_wr /\
+             lr_response l = Some {| r_ctl := 195; r_fn := 129; r_iin1 := 0; r_iin2 := 0; r_size := 0 |}) /\
+  s_control (fs_s cx_written) = CIdle /\
+  ro_out (frx_out cx_F cx_st0 1 None cx_wr) =
+    [OInfo (IIdleRequest 2 3); OInfo IClearRestart; ODb DbEvinfo; OTx 1 [195; 129; 0; 0]] /\
+  ro_out (frx_out cx_F cx_written 1 None cx_wr) = [OInfo (IIdleRequest 2 3); OTx 1 [195; 129; 0; 0]] /\
+  fs_db (fst (fstep cx_F cx_written (FRx 1 None cx_wr))) = fs_db cx_written /\
+  SessionC03Proofs.has_replay_error (snd (fstep cx_F cx_written (FRx 1 None cx_wr))) = false.
+Proof. exact ex_frx_repeat_idle. Qed.
+
+Example C05_composed_instance_unsol_wait :
+  SessionC03Proofs.FReach cy_F cy_written /\ wf_request cx_wr /\
+  (exists l, s_last (fs_s cy_written) = Some l /\ lr_bytes l = cx_wr) /\
+  (exists resp, s_control (fs_s cy_written) = CUnsolWait resp true (Some 0%nat) 5000) /\ s_now (fs_s cy_written) = 3%Z /\
+  ro_out (frx_out cy_F cy_waiting 1 None cx_wr) = [OInfo IClearRestart; ODb DbEvinfo; OTx 1 [195; 129; 0; 0]] /\
+  ro_out (frx_out cy_F cy_written 1 None cx_wr) = [OTx 1 [195; 129; 0; 0]] /\
+  fs_db (fst (fstep cy_F cy_written (FRx 1 None cx_wr))) = fs_db cy_written /\
+  SessionC03Proofs.has_replay_error (snd (fstep cy_F cy_written (FRx 1 None cx_wr))) = false.
+Proof. exact ex_frx_repeat_unsol_wait. Qed.
